@@ -544,3 +544,32 @@ def p12(ctx):
 
 
 RULES.append(p12)
+
+
+@rule("P13", doc="the strong shape under which a re-canonicalised e-node is looked up and re-inserted is computed AFTER the last shrink of the work-list handler: a class shrink can change the node itself (a node that refers to its own class loses the slot too), so a shape taken before the shrink loop is a stale key — the node sits in the hashcons under a shape that mentions a dropped slot and is never found again")
+def p13(ctx):
+    crate = ctx.lib()
+    sw = set(C.slot_writers(crate))
+    reach_sw = {b.id for b in crate.fns() if sw & set(crate.reachable_from([b.id], resolve_traits=False))} | sw
+    n = 0
+    for hid in C.need("re-insert function (handle_pending)", C.reinsert_functions(crate)):
+        h = mir.inline_view(crate, crate.bodies[hid], keep=tuple(C.short(x).split("::")[-1] for x in reach_sw) + ("shape", "lookup_internal"))
+        shapes = [c for c in h.calls if c.callee and c.callee.name == "shape" and not h.blocks[c.bb]["cleanup"] and h.blocks[c.bb] is not None and c.bb not in h.ghost_blocks()[0]]
+        shrinks = [c for c in h.calls if c.callee and c.callee.target in reach_sw and c.callee.target != hid and not h.blocks[c.bb]["cleanup"]]
+        if not shapes or not shrinks:
+            continue
+        for s in shapes:
+            # only a shape that feeds the lookup / the re-insert matters
+            uses = [c for c in h.calls if c.callee and c.callee.name in ("lookup_internal", "raw_add_to_class", "insert") and not h.blocks[c.bb]["cleanup"]
+                    and any(role_mentions_call(h.role_of_operand(a), "shape") for a in c.args)]
+            if not uses:
+                continue
+            n += 1
+            later = [c for c in shrinks if c.bb in h.reach(h.after(s.bb)) and any(u.bb in h.reach(h.after(c.bb)) for u in uses)]
+            ctx.check(not later, "shape-after-shrink:" + C.fkey(crate.bodies[hid]), "no class shrink can run between computing the strong shape and using it",
+                      "%s computes the strong shape of the e-node and can then still call %s, which shrinks a class: when the e-node refers to the class that shrinks (an equation whose right side mentions its own left side) the node changes with it, and the shape computed earlier is a stale hashcons key" % (C.short(hid), sorted({c.callee.name for c in later})),
+                      where_of(h, s.bb))
+    ctx.floor("strong shapes computed in the work-list handler", n, 1)
+
+
+RULES.append(p13)
